@@ -352,6 +352,13 @@ def family_inc(tier='quick'):
                     [('S', 'O1'), ('S', 'O2'), ('P1', 'X1'), ('P2', 'X1'), ('P1', 'X2'), ('P1', 'W'), ('P2', 'W')], ['S'],
                     choices=[('C1', 'O1', ['A1', 'A2', 'A3']), ('C2', 'O2', ['P1', 'P2', 'P3']), ('C9', 'W', ['U', 'V'])],
                     incompat=[('A1', 'X1'), ('A2', 'X2')], label='inc-two-constraints-overlapping-derivers-shared-nested-choice'))
+    # one option (P) excludes two options of another choice (T1, T2) that share a derived node Y carrying a nested
+    # choice; two further options exclude one of them each: what is removed together with T1 / T2 depends on which
+    # other nodes are removed at the same time
+    out.append(Desc(['S', 'X', 'P', 'A', 'B', 'T1', 'T2', 'W', 'Y', 'Y1', 'Y2'], [('S', 'X'), ('T1', 'Y'), ('T2', 'Y')], ['S'],
+                    choices=[('C1', 'S', ['P', 'A', 'B']), ('C2', 'X', ['T1', 'T2', 'W']), ('C3', 'Y', ['Y1', 'Y2'])],
+                    incompat=[('P', 'T1'), ('P', 'T2'), ('A', 'T2'), ('B', 'T1')],
+                    label='inc-one-option-excludes-two-with-shared-derived-choice'))
     # a node that derives the very node it is incompatible with (below an option: that option can never be feasible),
     # once more below a nested choice; the conflict has a derivation edge between its two ends
     out.append(Desc(['S', 'A', 'B', 'F', 'G', 'K', 'P', 'Q', 'R', 'T'], [('A', 'F'), ('F', 'G'), ('B', 'K'), ('P', 'R'), ('Q', 'T')], ['S'],
